@@ -121,7 +121,7 @@ pub fn run(o: &mut Out, tier: &str, seed: u64) {
     // (E) all five operations on operands of independent, log-uniform magnitude (neither near a boundary nor in the grid)
     for i in 0..3_000 * k {
         let form = forms[(i % 3) as usize]; let op = ops[(i / 3 % 5) as usize];
-        let mut mag = |rng: &mut Rng| { let e = rng.below(64); if e == 0 { rng.below(2) } else { (1u64 << e) | (rng.next() & ((1u64 << e) - 1)) } };
+        let mag = |rng: &mut Rng| { let e = rng.below(64); if e == 0 { rng.below(2) } else { (1u64 << e) | (rng.next() & ((1u64 << e) - 1)) } };
         let (ma, mb) = (mag(&mut rng), mag(&mut rng));
         if rng.chance(1, 2) { arith(o, form, "u", op, ma as i128, mb as i128); } else {
             let sg = |rng: &mut Rng, m: u64| { let v = (m >> 1) as i64; if rng.chance(1, 2) { -v } else { v } };
